@@ -1128,6 +1128,34 @@ pub fn gen_ops(rng: &mut Rng, len: usize, cfg: GenCfg) -> Vec<Op> {
             ops.push(Op::GetCached(Ty::N, nj));
             continue;
         }
+        if hot && r >= 46 && r < 50 {
+            // recording must resume after a no_record block / helper thread, however the block ended
+            let i = rng.below(NODE_IDS.len() as u64) as usize;
+            let ni = NODE_IDS[i].to_string();
+            let fid = rng.pick(FILE_IDS).to_string();
+            let block = match rng.below(5) {
+                0 => Line::Catch(Box::new(Line::NoRec(Box::new(Line::Panic)))),
+                1 => Line::Try(Box::new(Line::NoRec(Box::new(Line::Fail)))),
+                2 => Line::NoRec(Box::new(Line::ReadFile(fid.clone(), "x".into()))),
+                3 if threads_ok => Line::Catch(Box::new(Line::Thread(Box::new(Line::Panic)))),
+                _ => Line::Try(Box::new(Line::NoRec(Box::new(Line::Load(Ty::I, "missing".into()))))),
+            };
+            let after = if rng.chance(1, 2) { Line::Load(Ty::I, fid.clone()) } else { Line::ReadFile(fid.clone(), "x".into()) };
+            ops.push(Op::Write(fid.clone(), "x".into(), Content::Bytes(format!("{}", rng.below(50)).into_bytes())));
+            ops.push(Op::Write(ni.clone(), "n".into(), Content::Script(vec![Line::Val(1), block, after])));
+            if mutable {
+                ops.push(Op::Remove(Ty::N, ni.clone()));
+            }
+            ops.push(Op::Load(Ty::N, ni.clone()));
+            if !loaded.contains(&(Ty::N, ni.clone())) && loaded.len() < 8 {
+                loaded.push((Ty::N, ni.clone()));
+            }
+            ops.push(Op::Write(fid.clone(), "x".into(), Content::Bytes(format!("{}", 50 + rng.below(50)).into_bytes())));
+            ops.push(notify_for(rng, &fid, "x", false));
+            ops.push(Op::HotReload);
+            ops.push(Op::GetCached(Ty::N, ni));
+            continue;
+        }
         if hot && !mutable && r >= 38 && r < 42 && !loaded.is_empty() && watchers < 4 {
             let (t, id) = rng.pick(&loaded).clone();
             ops.push(Op::Watch(watchers, t, id));
